@@ -56,6 +56,13 @@ def rule_byte_offsets(ctx, rid):
         else:
             ok_sites.add((f.id, bi))
             ctx.ok(rid, key, "byte offsets")
+    # the converse confusion: a byte count used as a number of characters
+    for f, b, bi, e, u in units.char_count_sites(U):
+        key = "%s/char-count(%s)" % (f.short, units.fmt_expr(e))
+        if "BYTE" in u or "SHIFT" in u:
+            ctx.violation(rid, key, "%s advances a character iterator by %s, which is a number of BYTES: after a multi-byte character the iterator runs past the intended position and the byte positions kept beside it no longer match the text that was consumed" % (f.short, units.fmt_expr(e)), b.site(bi), key)
+        else:
+            ctx.ok(rid, key, "not a byte count")
     ctx.floor(rid, "str_slice_sites", len(sites), 1)
     ctx.count(rid + "_position_fields", {"%s.%s" % (n[0].split("::")[-1], n[1]): sorted(u) for n, u in U.unit.items()})
     return ok_sites
